@@ -1,10 +1,11 @@
 SPECIFICATION Spec
 CONSTANTS
-  MaxSegs = 2
-  SegAlphabet = {"", ".", "..", "a", "f", "g", "L1", "index.gmi", "root2", "x", "s p", "s%20p", "%2e%2e", "%66", "a%2ff", "..%2f"}
+  MaxSegs = 4
+  SegAlphabet = {"..", "a", "L1", "index.gmi"}
   DevIndexNotRechecked = FALSE
   DevNoPctDecode = FALSE
   DevLoopLexical = FALSE
+CONSTRAINT HasLoop
 INVARIANT Safe
 INVARIANT Reachable
 CHECK_DEADLOCK FALSE
